@@ -162,7 +162,7 @@ def run(index: RepoIndex, rep) -> None:
     rep.rule('C12.R3', 'delegation and sibling agreement between reward and termination',
              floor=6)
     rep.rule('C12.R4', 'composition: reduce applies the reduction to every part; sum/any/all',
-             floor=7)
+             floor=8)
     rep.rule('C12.R5', 'GridWorld.functional_step wires reward and termination on the '
              '(state, action, next_state) of one step', floor=3)
     rw = index.registry('reward', 13)
@@ -396,6 +396,16 @@ def run(index: RepoIndex, rep) -> None:
               'the YAML factory does not chain the listed transition functions',
               'yaml transitions chained')
 
+    # components obtained by name keep every accepted parameter (zero values included)
+    sk = index.func('gym_gridverse/utils/functions.py', 'select_kwargs')
+    b = sk.body()
+    kp, ks = [a.arg for a in sk.node.args.args[:2]]
+    rep.check(len(b) == 1 and src(b[0]) ==
+              f'return {{key: value for key, value in {kp}.items() if key in {ks}}}', 'C12.R4',
+              'gym_gridverse/utils/functions.py', 'select_kwargs', sk.node.lineno, src(b[-1]),
+              'select_kwargs does not keep exactly the accepted parameters: e.g. a reward '
+              'configured as 0.0 would silently fall back to its non-zero default',
+              'parameters reach the component')
     # ---- wiring
     fs = index.func(GW, 'GridWorld.functional_step')
     w = walk_function(fs.node)
